@@ -197,7 +197,8 @@ class Term(object):
         if not o.is_simple():
             raise OutOfSubset('division by a sum term')
         d = o.simple_expr()
-        return Term([Mono(m.vars, m.body / d) for m in self.monos])
+        inv = z3.RealVal(1) / d          # x / c is kept as x * (1/c) so that products match syntactically
+        return Term([Mono(m.vars, m.body * inv) for m in self.monos])
 
     def __rtruediv__(self, o):
         return Term.of(o) / self
